@@ -1371,6 +1371,14 @@ def _same_task(a, b):
         return True
 
 
+def _problem_kind(msg: str) -> str:
+    for needle, kind in (("planner object", "embedded-planner-object"), ("references undefined key", "undefined-key"), ("defined differently", "ambiguous-key"),
+                         ("output key", "missing-output"), ("missing for a reported partition", "missing-output"), ("cycle", "cycle"), ("_layer raised", "layer-raises")):
+        if needle in msg:
+            return kind
+    return "other"
+
+
 def check_graphs(prog: Program) -> list[Result]:
     """C09 by-product of engine P: graph structure of every optimiser stage, fused and unfused; the symbolic interpreter also
     executes every graph, so an undefined key or a cycle on an executed path surfaces as GraphError there."""
@@ -1397,7 +1405,8 @@ def check_graphs(prog: Program) -> list[Result]:
             out.append(Result(name, SKIPPED, "", f"graph could not be materialised: {type(e).__name__}: {str(e)[:80]}"))
             continue
         if probs:
-            out.append(Result(name, VIOLATION, _sig(prog, "graph|" + stage), "; ".join(probs[:3]), {"engine": "P", "program": prog.name, "stage": "graph|" + stage}, 0.0, 0, {"keys": nkeys}))
+            # the signature names the program and the kind of structural defect (not the stage: one defect shows at every stage)
+            out.append(Result(name, VIOLATION, _sig(prog, "graph|" + _problem_kind(probs[0])), "; ".join(probs[:3]), {"engine": "P", "program": prog.name, "stage": "graph|" + stage}, 0.0, 0, {"keys": nkeys}))
         else:
             out.append(Result(name, HELD, "", f"{nkeys} keys: outputs defined, closed, acyclic, unambiguous, no planner objects", None, 0.0, 0, {"keys": nkeys}))
     return out
